@@ -66,6 +66,8 @@ type Tree struct {
 	// OnCall, if set, is called with the number of each failing-capable callback before it is answered
 	// (used to cancel the Go context of the run at a chosen point).
 	OnCall func(n int)
+	// Debug runs the machine with the library's debug trace switched on.
+	Debug bool
 }
 
 type entry struct {
@@ -114,9 +116,18 @@ func (e *entry) GetValue() (xpath.Datum, error) {
 	case xp.AnsLeaf:
 		return xpath.NewLiteralDatum(a.Vals[0]), nil
 	case xp.AnsLeafList:
+		// The tree keeps the values of a leaf-list and hands out that slice, as a data tree that stores
+		// its values does: a run that converts or reorders it in place changes what every later run reads.
+		key := e.path + "\x00" + strings.Join(a.Vals, "\x00")
+		if ds, ok := storedLeafLists.Load(key); ok {
+			return xpath.NewDatumSliceDatum(ds.([]xpath.Datum)), nil
+		}
 		ds := make([]xpath.Datum, len(a.Vals))
 		for i, v := range a.Vals {
 			ds[i] = xpath.NewLiteralDatum(v)
+		}
+		if old, loaded := storedLeafLists.LoadOrStore(key, ds); loaded {
+			ds = old.([]xpath.Datum)
 		}
 		return xpath.NewDatumSliceDatum(ds), nil
 	}
@@ -184,6 +195,8 @@ func (e *entry) GetSdcpbPath() *sdcpb.Path {
 
 var storedPaths sync.Map // canonical path -> *sdcpb.Path, process-wide
 
+var storedLeafLists sync.Map // path + values -> []xpath.Datum, process-wide
+
 func (e *entry) BreadthSearch(ctx context.Context, p *sdcpb.Path) ([]xpath.Entry, error) {
 	c := Canon(p)
 	if err := e.t.hit("BreadthSearch " + c); err != nil {
@@ -238,7 +251,7 @@ func RunCtx(gctx context.Context, m *xpath.Machine, t *Tree) (o Outcome) {
 			o.Panic = fmt.Sprint(r)
 		}
 	}()
-	res := xpath.NewCtxFromCurrent(gctx, m, t.Root()).Run()
+	res := xpath.NewCtxFromCurrent(gctx, m, t.Root()).SetDebug(t.Debug).Run()
 	if e := res.GetError(); e != nil {
 		o.Err = e.Error()
 		s := t.Sentinel
